@@ -270,12 +270,15 @@ def json_decoder(obj_dict: dict[str, Any]) -> dict[str, Any] | Object | Alias | 
     Returns:
         An instance of a data class.
     """
+    # Dictionaries of members are keyed by member names: a member can be named `cls` or `kind`.
+    # In serialized expressions, objects and parameters these keys hold strings.
+
     # Load expressions.
-    if "cls" in obj_dict:
+    if isinstance(obj_dict.get("cls"), str):
         return _load_expression(obj_dict)
 
     # Load objects and parameters.
-    if "kind" in obj_dict:
+    if isinstance(obj_dict.get("kind"), str):
         try:
             kind = Kind(obj_dict["kind"])
         except ValueError:
